@@ -14,7 +14,7 @@ INFO = {
     "id": "C18",
     "technique": "abstract interpretation of asmatrix / frommatrix / expr_as_matrix with symbolic tokens; symbolic "
                  "Kronecker-factor arithmetic over the 2x2 integer literals of matrixreps (exact, by the mixed-product "
-                 "rule); dependency rule for matrix_basis",
+                 "rule), also through Algebra.matrix_basis on default, named and hand-written bases",
     "explanation": "Clause-level. Decided: asmatrix is sum(v * M[canonical position of k]) over the multivector's own "
                    "items - linear by construction and indexed by canonical position; frommatrix hands the first column to "
                    "the constructor as a key-less full list, which the constructor pairs with the canonical key tuple (one "
@@ -22,12 +22,16 @@ INFO = {
                    "evaluated as symbolic Kronecker products, square to the signature entry of their position, anticommute "
                    "pairwise, and the higher-grade matrices are the ascending products of their generators in canonical "
                    "(combinations) order - for several signatures with positive, negative and null generators; "
-                   "expr_as_matrix stores coeff(y_i, x_j) at A[i, j] and re-keys y by res_like. FINDING (recorded, shared "
-                   "with C14): matrix_basis does not depend on a custom basis. NOT decided: the similarity transform "
-                   "(ordering_matrix) and injectivity; sympy.collect / coeff.",
+                   "Algebra.matrix_basis (what asmatrix indexes) holds, at the canonical position of every blade of default, "
+                   "named (2DPGA, 3DPGA) and hand-written bases built one after another in one process, the product of the "
+                   "generator matrices in the blade's spelled order, and the similarity transform is stacked from the first "
+                   "columns of these same matrices in the same order (fixed finding F7: the basis was ignored); "
+                   "expr_as_matrix stores coeff(y_i, x_j) at A[i, j] and re-keys y by res_like. NOT decided: that the "
+                   "similarity transform makes the first column the coefficient vector (orthonormality of the first "
+                   "columns) and injectivity; sympy.collect / coeff.",
     "decided": ["C18.asmatrix", "C18.frommatrix", "C18.kronecker", "C18.expr-pairing", "C18.expr-placeholders",
                 "C14.matrix-basis", "C09.module-state"],
-    "not_decided": ["the similarity transform O (first column positive) and injectivity", "sympy.collect / coeff / lambdify"],
+    "not_decided": ["orthonormality of the first columns (so that O R O^T has the coefficient vector as first column) and injectivity", "sympy.collect / coeff / lambdify"],
     "assumptions": ["M4: (A kron B)(C kron D) = AC kron BD", "a similarity transform preserves products"],
 }
 
@@ -170,7 +174,7 @@ def kron_obj(factors, coeff=1):
             return NotImplemented
         return Unk("kron arith")
     o.methods["binop"] = binop
-    o.getitem = lambda idx: Obj("column-of", {"of": o})
+    o.getitem = lambda idx: Obj("column-of", {"of": o, "index": idx})
     return o
 
 
@@ -194,14 +198,14 @@ def numpy_standin():
         return kron_obj(list(fa) + list(fb), ca * cb)
 
     def vstack(cols):
-        o = Obj("ordering", {"fmt": "O"})
+        o = Obj("ordering", {"fmt": "O", "cols": list(cols) if isinstance(cols, (list, tuple)) else None})
         t = Obj("ordering.T", {"fmt": "O.T"})
         o.attrs["T"] = t
 
         def binop(op, other, refl):
             if op == "MatMult" and not refl and isinstance(other, Obj) and other.kind == "kron":
                 r = Obj("OR", {"base": other})
-                r.methods["binop"] = lambda op2, other2, refl2: (Obj("similar", {"base": other}) if op2 == "MatMult" and other2 is t and not refl2 else Unk("similarity"))
+                r.methods["binop"] = lambda op2, other2, refl2: (Obj("similar", {"base": other, "ordering": o}) if op2 == "MatMult" and other2 is t and not refl2 else Unk("similarity"))
                 return r
             return Unk("ordering arith")
         o.methods["binop"] = binop
@@ -276,6 +280,114 @@ def kronecker(ctx):
             ctx.violation(c, f"signature {sig}: " + "; ".join(problems[:4]), fn)
         else:
             ctx.ok(c, fn, generators=d, blades=2 ** d)
+
+
+MB_CONFIGS = ("default d=3", "default PGA d=3", "explicit signature [-1,0,1,1]", "named basis 2DPGA", "named basis 3DPGA",
+              "custom basis, spelled blades", "custom basis, permuted generators")
+
+
+def _mb_kwargs(repo, label):
+    from .c01 import read_named_basis
+    if label.startswith("named basis "):
+        basis, pqr = read_named_basis(repo, label.split()[-1])
+        return dict(p=pqr[0], q=pqr[1], r=pqr[2], basis=basis)
+    return {"default d=3": dict(p=2, q=1), "default PGA d=3": dict(p=2, r=1),
+            "explicit signature [-1,0,1,1]": dict(signature=[-1, 0, 1, 1]),
+            "custom basis, spelled blades": dict(p=2, r=1, basis=["e", "e1", "e0", "e2", "e10", "e02", "e21", "e021"]),
+            "custom basis, permuted generators": dict(p=2, q=1, basis=["e", "e2", "e3", "e1", "e23", "e31", "e12", "e123"]),
+            }[label]
+
+
+@rule("C14.matrix-basis", props=["C14", "C18"], min_instances=7, mutants=[
+    ("matrix basis ignores the basis of the algebra", ("algebra", "        return matrix_rep(self.p, self.q, self.r, signature=self.signature, blades=blades)", "        return matrix_rep(self.p, self.q, self.r, signature=self.signature)")),
+    ("blades multiplied in descending spelled order", ("matrixreps", "        Rs = [reduce(lambda x, y: x @ y, (Es[j] for j in blade), Iden) for blade in blades]", "        Rs = [reduce(lambda x, y: y @ x, (Es[j] for j in blade), Iden) for blade in blades]")),
+    ("generator labels taken without the start index", ("algebra", "        blades = [tuple(int(ei, base=16) - self.start_index for ei in eJ[1:]) for eJ in self.canon2bin]", "        blades = [tuple(int(ei, base=16) - 1 for ei in eJ[1:]) for eJ in self.canon2bin]")),
+    ("blades listed in binary-key order", ("algebra", " for ei in eJ[1:]) for eJ in self.canon2bin]", " for ei in eJ[1:]) for eJ in self.bin2canon.values()]")),
+    ("ordering matrix from the default blades", ("matrixreps", "    if blades is not None:\n        # A custom basis: position and orientation of every basis-blade are those of its spelling.\n        Rs = [reduce(lambda x, y: x @ y, (Es[j] for j in blade), Iden) for blade in blades]\n\n    O = ordering_matrix(Rs)",
+                                                   "    O = ordering_matrix(Rs)\n    if blades is not None:\n        # A custom basis: position and orientation of every basis-blade are those of its spelling.\n        Rs = [reduce(lambda x, y: x @ y, (Es[j] for j in blade), Iden) for blade in blades]\n")),
+])
+def matrix_basis(ctx):
+    """Algebra.matrix_basis, which asmatrix / frommatrix index by CANONICAL POSITION: the matrix at the position of
+    blade eJ is the product of the generator matrices in the order in which J is spelled in the algebra's basis, the
+    generator matrices square to their signature entry and anticommute, the scalar is the identity, and the
+    similarity transform is stacked from the first columns of these same matrices in the same order.  Algebra's
+    __post_init__ and matrix_basis and matrix_rep are interpreted from source with symbolic Kronecker arithmetic."""
+    from .c01 import build_algebra
+    from ..absint import Raised
+    repo = ctx.repo
+    q = "algebra.Algebra.matrix_basis"
+    fn = ctx.func(q)
+    shared_module_state = {}     # the configurations are built one after another in ONE process: module-level state persists
+    for label in MB_CONFIGS:
+        c = f"{q}#{label}"
+        kwargs = _mb_kwargs(repo, label)
+        try:
+            it, alg = build_algebra(repo, **kwargs)
+            it.module_state = shared_module_state
+            it.standins["numpy"] = numpy_standin()
+            out = it.run(q, [alg])
+        except NoValue as exc:
+            raise Unknown(c, str(exc), fn)
+        except Raised as r:
+            ctx.violation(c, f"constructing the algebra ({label}) raises {r.name}", fn)
+            continue
+        if out[0] == "raise":
+            ctx.violation(c, f"matrix_basis raises {out[1]} ({label})", fn)
+            continue
+        res = out[1]
+        if not isinstance(res, (list, tuple)) or not all(isinstance(o, Obj) and o.kind == "similar" for o in res):
+            raise Unknown(c, f"matrix_basis is not a list of similarity transforms O @ R @ O.T of Kronecker products: {str(res)[:80]}", fn)
+        bases = [o.attrs["base"] for o in res]
+        names = list(alg.attrs["canon2bin"])
+        d = alg.attrs["d"]
+        sig = list(alg.attrs["signature"])
+        start = alg.attrs["start_index"]
+        problems = []
+        if len(bases) != len(names):
+            problems.append(f"{len(bases)} matrices for {len(names)} blades")
+        else:
+            ident = kron_obj([((1, 0), (0, 1))] * d)
+            G = {n[1]: bases[i] for i, n in enumerate(names) if len(n) == 2}
+            if kron_key(bases[names.index("e")]) != kron_key(ident):
+                problems.append("the matrix at the position of the scalar is not the identity")
+            for ch, g in G.items():
+                sq = g.methods["binop"]("MatMult", g, False)
+                s_ = sig[int(ch, 16) - start]
+                if kron_key(sq) != kron_key(kron_obj([((1, 0), (0, 1))] * d, s_)):
+                    problems.append(f"the matrix at the position of e{ch} (signature {s_:+d}) squares to {sq.attrs['coeff']:+d} x "
+                                    f"{'identity' if sq.attrs['factors'] == ident.attrs['factors'] else 'non-identity'}")
+            for a_, b_ in ((x, y) for x in G for y in G if x < y):
+                ab = G[a_].methods["binop"]("MatMult", G[b_], False)
+                ba = G[b_].methods["binop"]("MatMult", G[a_], False)
+                if kron_key(ab) != kron_key(kron_obj(ba.attrs["factors"], -ba.attrs["coeff"])) and not (ab.attrs["coeff"] == 0 and ba.attrs["coeff"] == 0):
+                    problems.append(f"the matrices of e{a_} and e{b_} do not anticommute")
+            if not problems:
+                for i, n in enumerate(names):
+                    if len(n) < 3:
+                        continue
+                    prod = G[n[1]]
+                    for ch in n[2:]:
+                        prod = prod.methods["binop"]("MatMult", G[ch], False)
+                    if kron_key(bases[i]) != kron_key(prod):
+                        problems.append(f"the matrix at canonical position {i} (blade {n}) is not the product of the matrices of "
+                                        f"{' '.join('e' + ch for ch in n[1:])} in that order")
+            orderings = {id(o.attrs["ordering"]) for o in res}
+            cols = res[0].attrs["ordering"].attrs.get("cols")
+            if len(orderings) != 1 or cols is None or len(cols) != len(bases):
+                problems.append("the similarity transform is not one matrix stacked from one column per blade")
+            else:
+                for i, col in enumerate(cols):
+                    ok_col = isinstance(col, Obj) and col.kind == "column-of" and kron_key(col.attrs["of"]) == kron_key(bases[i]) \
+                        and col.attrs.get("index") == (slice(None), 0)
+                    if not ok_col:
+                        problems.append(f"row {i} of the similarity transform is not the first column of the matrix of blade {names[i]} "
+                                        f"(frommatrix reads the coefficients from the first column, in canonical order)")
+                        break
+        if problems:
+            ctx.violation(c, f"{label}: " + "; ".join(problems[:4]) + " - asmatrix indexes matrix_basis by canonical position, so "
+                             f"(a*b).asmatrix() != a.asmatrix() @ b.asmatrix() for blades of this algebra", fn)
+        else:
+            ctx.ok(c, fn, blades=len(names), generators=d)
 
 
 # --------------------------------------------------------------------------- expr_as_matrix
